@@ -11,7 +11,7 @@ use reval::expr::Index;
 use reval::prelude::*;
 use std::collections::BTreeMap;
 
-const KEYS: [&str; 13] = ["a", "A", "a_", "aa", "facts", "b", "ab", "Facts", "a1", "x", "0", "1", "10"];
+const KEYS: [&str; 16] = ["a", "A", "a_", "aa", "facts", "b", "ab", "Facts", "a1", "x", "i1_0", "d2_", "f1_5", "0", "1", "10"];
 
 #[derive(Clone, Debug)]
 enum Step {
@@ -334,7 +334,7 @@ fn random_bundle(bytes: &[u8]) -> Bundle {
     let mut m = BTreeMap::new();
     for _ in 0..n {
         let depth = 1 + d.below(3) as u32;
-        m.insert(d.pick(&KEYS[..10]).to_string(), gen_tree(&mut d, depth, &mut counter));
+        m.insert(d.pick(&KEYS[..13]).to_string(), gen_tree(&mut d, depth, &mut counter));
     }
     let input = Value::Map(m.clone());
     // symbols: mostly the same names as the fields, same shape, other leaves; sometimes absent
@@ -357,7 +357,7 @@ fn random_bundle(bytes: &[u8]) -> Bundle {
         }
         // mostly resolving paths: an existing root, steps that follow the data (a deviation once in ten)
         let keys: Vec<&String> = m.keys().collect();
-        let name = if d.below(10) == 9 { d.pick(&KEYS[..10]).to_string() } else { keys[d.below(keys.len())].clone() };
+        let name = if d.below(10) == 9 { d.pick(&KEYS[..13]).to_string() } else { keys[d.below(keys.len())].clone() };
         let mut cur = m.get(&name);
         let mut steps = vec![];
         for _ in 0..d.below(4) {
@@ -507,7 +507,7 @@ fn check_names(c: &NameCase) -> Verdict {
     }
     let mut fns = BTreeMap::new();
     for f in &c.functions {
-        fns.insert(f.clone(), FnSpec { cacheable: true, fail_on: vec![], fail_first: 0 });
+        fns.insert(f.clone(), FnSpec { cacheable: true, fail_on: vec![], fail_first: 0, uncacheable_after: 0 });
     }
     // an input that also has fields of the same names: symbols and fields must not be confused
     let input = Value::Map(NAMES.iter().map(|n| (n.to_string(), Value::String(format!("field#{n}")))).collect());
